@@ -47,7 +47,12 @@ type c17SliceCase struct {
 }
 
 func init() {
-	registerReplay("c17slices", func(c c17SliceCase) error { return runC17Slices(c) })
+	registerReplay("c17slices", func(c c17SliceCase) error {
+		if err := runC17Slices(c); err != nil {
+			return err
+		}
+		return runC17Skips(c)
+	})
 }
 
 var c17HolderSchema = `{"type":"record","name":"h","fields":[
@@ -340,6 +345,109 @@ func TestC17Slices(t *testing.T) {
 		if c.Sub {
 			labels = append(labels, "slices_are_windows")
 		}
-		return nt, labels, runC17Slices(c)
+		if err := runC17Slices(c); err != nil {
+			return nt, labels, err
+		}
+		return nt, labels, runC17Skips(c)
 	})
+}
+
+// Stepping over a number takes exactly the bytes the number occupies: a record in
+// which every other field is absent from the Go struct.
+type c17Skipper struct {
+	A int64 `json:"a"`
+	B int64 `json:"b"`
+	C int64 `json:"c"`
+	D int64 `json:"d"`
+	E int64 `json:"e"`
+	F int64 `json:"f"`
+	G int64 `json:"g"`
+}
+
+var c17SkipSchema = `{"type":"record","name":"s","fields":[
+ {"name":"a","type":"long"},{"name":"xf","type":"float"},
+ {"name":"b","type":"long"},{"name":"xd","type":"double"},
+ {"name":"c","type":"long"},{"name":"xi","type":"int"},{"name":"xl","type":"long"},{"name":"xb","type":"boolean"},
+ {"name":"d","type":"long"},{"name":"xnf","type":["null","float"]},{"name":"xaf","type":{"type":"array","items":"float"}},
+ {"name":"e","type":"long"},{"name":"xad","type":{"type":"array","items":"double"}},{"name":"xmf","type":{"type":"map","values":"float"}},
+ {"name":"f","type":"long"},{"name":"xai","type":{"type":"array","items":"long"}},
+ {"name":"g","type":"long"}]}`
+
+func runC17Skips(c c17SliceCase) error {
+	lib, err := avro.SchemaFromString(c17SkipSchema)
+	if err != nil {
+		return fmt.Errorf("VERIF-INCONCLUSIVE harness: %v", err)
+	}
+	rs, err := ref.ParseSchema([]byte(c17SkipSchema))
+	if err != nil {
+		return fmt.Errorf("VERIF-INCONCLUSIVE harness: %v", err)
+	}
+	codec, err := lib.Codec(c17Skipper{})
+	if err != nil {
+		return fmt.Errorf("Schema.Codec: %v", err)
+	}
+	f32 := func(i int) ref.Datum {
+		if len(c.F32) == 0 {
+			return ref.Datum{K: "float", F: 0x3fc00000}
+		}
+		return ref.Datum{K: "float", F: uint64(c.F32[i%len(c.F32)])}
+	}
+	f64 := func(i int) ref.Datum {
+		if len(c.F64) == 0 {
+			return ref.Datum{K: "double", F: 0x3ff8000000000000}
+		}
+		return ref.Datum{K: "double", F: c.F64[i%len(c.F64)]}
+	}
+	in := func(i int) int64 {
+		if len(c.Ints) == 0 {
+			return int64(i)
+		}
+		return c.Ints[i%len(c.Ints)]
+	}
+	arr := func(n int, item func(int) ref.Datum) ref.Datum {
+		d := ref.Datum{K: "array"}
+		for i := 0; i < n; i++ {
+			d.Items = append(d.Items, item(i))
+		}
+		return d
+	}
+	mp := ref.Datum{K: "map"}
+	for i := range c.F32 {
+		mp.Keys, mp.Vals = append(mp.Keys, fmt.Sprintf("k%d", i)), append(mp.Vals, f32(i))
+	}
+	nf := ref.Union(1, f32(1))
+	if len(c.B) > 0 && c.B[0] {
+		nf = ref.Union(0, ref.Null())
+	}
+	rec := ref.Datum{K: "record", Fields: []ref.Datum{
+		ref.Long(101), f32(0), ref.Long(102), f64(0), ref.Long(103), ref.Int(int64(int32(in(0)))), ref.Long(in(1)), ref.Bool(len(c.B)%2 == 1),
+		ref.Long(104), nf, arr(len(c.F32), f32), ref.Long(105), arr(len(c.F64), f64), mp, ref.Long(106),
+		arr(len(c.Ints), func(i int) ref.Datum { return ref.Long(in(i)) }), ref.Long(107)}}
+	var choices *ref.Choices
+	if c.Sub {
+		choices = &ref.Choices{Bits: []byte{1, 3, 2, 1, 3, 1, 2, 3}} // sized / split blocks for the collections
+	}
+	body, err := ref.Encode(rs, rec, choices)
+	if err != nil {
+		return fmt.Errorf("VERIF-INCONCLUSIVE harness: %v", err)
+	}
+	var got c17Skipper
+	rb := avro.NewReadBuf(body)
+	if err := codec.Read(rb, reflect.ValueOf(&got).UnsafePointer()); err != nil {
+		return fmt.Errorf("decoding a record whose numeric fields are stepped over: %v (% x)", err, body)
+	}
+	if rb.Len() != 0 {
+		return fmt.Errorf("%d bytes left after the record", rb.Len())
+	}
+	if got != (c17Skipper{101, 102, 103, 104, 105, 106, 107}) {
+		return fmt.Errorf("fields between the skipped numbers decoded as %+v, want 101..107 (% x)", got, body)
+	}
+	if err := codec.Skip(avro.NewReadBuf(body)); err != nil {
+		return fmt.Errorf("Skip of the whole record: %v", err)
+	}
+	return nil
+}
+
+func init() {
+	registerReplay("c17skips", func(c c17SliceCase) error { return runC17Skips(c) })
 }
